@@ -111,6 +111,21 @@ Theorem C03_future_joins_future_block : forall c bs imp L b,
 Proof. exact future_joins_future_block. Qed.
 Print Assumptions C03_future_joins_future_block.
 
+(* F46: with the repair the joined block holds a from-__future__ import (a compiler directive); on the tree before
+   it a plain `import __future__` after code was enough (witness) *)
+Theorem C03_future_joins_from_future_block : forall c bs imp L b,
+  f46 c = true -> is_future imp = true -> select_block c bs imp L = Ok (Some b) ->
+  exists o, In o (ib_imps b) /\ is_future o = true.
+Proof. exact future_joins_from_future_block. Qed.
+Print Assumptions C03_future_joins_from_future_block.
+
+Theorem C03_future_first_refuted_F46 :
+  is_future i_futmod = false /\
+  select_block unchanged w46_blocks i_div None = Ok (Some (mkIB 1 2 true 3 true [i_futmod])) /\
+  select_block repaired w46_blocks i_div None = Ok None.
+Proof. exact F46_refuted. Qed.
+Print Assumptions C03_future_first_refuted_F46.
+
 Theorem C03_future_first_new_block : forall c bs bs' nb,
   insert_new c bs = Ok (bs', nb) ->
   exists pro rest, bs' = (pro ++ Imps nb :: sep_block :: rest)%list /\ iblocks pro = [] /\
